@@ -7,7 +7,7 @@ ID = "C11"
 INFO = ("YNest (TLA+): the recursion that nesting causes as a counter machine (one level of recursion in Parser::load / Drop / Clone / Eq / Hash / the emitter per open collection), "
         "with the parser's nesting limit; MC_Nest checks that the recursion is bounded by a constant independent of the input (and MC_Nest_nolimit, the code before the repair, violates it). "
         "YParser carries the same limit, so MC_Pipeline/MC_ParserPDA cover its error path. Scenarios {8 nesting shapes: '- ', 'k:' per level, '? ', '[', '{a:', alternating block, "
-        "alternating flow, '- k:'} x depth {1 .. 10^5 (thorough: also 3*10^5), dense around the limits 255 and 1000} x API {iterator, load, load_from_str + drop, clone + eq + hash, emit} "
+        "alternating flow, '- k:', a block scalar under '- ' levels (every depth 1..80, with and without a final line break)} x depth {1 .. 10^5 (thorough: also 3*10^5), dense around the limits 255 and 1000} x API {iterator, load, load_from_str + drop, clone + eq + hash, emit} "
         "each run in its own process on the default 8 MiB main-thread stack; exit status and the recursion depth seen by the `load` hook are judged by Trace_Nest in TLC.",
         "Stack bytes are not modelled (recursion depth is); the byte-level consequence is observed in a child process with the default main-thread stack.",
         "TLA+ model checking of the recursion bound + TLC trace validation of per-process scenario outcomes", "7/C11")
@@ -48,7 +48,8 @@ def run(ck):
     ck.traces += j.judged
     for rej in j.rejects:
         r = recs[rej[0] - 1]
-        ck.violation("nest:%s:%s:depth=%d" % (r["shape"], r["api"], r["depth"]), "%s — shape %s nested %d deep through %s (signal %s)" % (rej[1], r["shape"], r["depth"], r["api"], r.get("signal")), r)
+        how = "neither succeeded nor failed within 120 s" if r.get("exit") == 124 else ("panicked" if r.get("exit") == 101 else rej[1])
+        ck.violation("nest:%s:%s:depth=%d" % (r["shape"], r["api"], r["depth"]), "%s — shape %s nested %d deep through %s (exit %s, signal %s)" % (how, r["shape"], r["depth"], r["api"], r.get("exit"), r.get("signal")), r)
     for r in recs:
         if r.get("maxstates", 0) > 1002:
             ck.note_drift({"shape": r["shape"], "depth": r["depth"], "states": r["maxstates"], "note": "state stack higher than the model's nesting limit"})
